@@ -208,3 +208,12 @@ lam = lambda z, w=1: (z, w) if z else None  # noqa: E731
 
 SOURCE = "for i in range(3):\n    print(i if i else -i)\n"
 EXPR = "a + b * c"
+
+
+def early_exit(a):
+    # 3.8/3.9 drop the unreachable statements from co_code but keep their co_lnotab entries: the first dropped line starts at len(co_code)
+    if a:
+        return a
+    return 0
+    a += 1
+    return a * 2
